@@ -144,7 +144,7 @@ def run(ctx):
                 'reference direct-method sampler is explored to the cost bound (every waiting-time draw: cross / just after '
                 'now / mid / just before the next grid time / far; every reaction draw: middle and both edges of every live '
                 'bucket) and every complete trace is replayed on SSASimulator (directly, through py_simulate_model(stochastic=True), and on a model reached through edits with rejected create_reaction calls in between and its start state set through Model.set_species after the interface was built) under the scripted stream; plus the same '
-                'exploration (bound 2) started from every reachable state, on and between grid times (the start state handed over as an int64 array or as a strided view); through the entry point every run is preceded by a run of a different model of the same shape; plus (bound 2) six larger networks (counts 50-200, seven species / eight channels, ten channels) on grids of 11 (thorough: 3, 11, 33) points, and (bound 3) three networks whose rates are of magnitude 1e-11 / 1e9 (grids scaled accordingly) or mix 1e-12 with 1. states = distinct '
+                'exploration (bound 2) started from every reachable state, on and between grid times (the start state handed over as an int64 array or as a strided view); through the entry point every run is preceded by a run of a different model of the same shape; plus (bound 2) six larger networks (counts 50-200, seven species / eight channels, ten channels) on grids of 11 (thorough: 3, 11, 33) points, and (bound 3) three networks whose rates are of magnitude 1e-11 / 1e9 (grids scaled accordingly) or mix 1e-12 with 1. The time grid is also handed over as a strided view whose gaps hold the midpoints and as a table column next to shifted times (simulator objects and entry point); the conformance oracle is unchanged. states = distinct '
                 '(state, grid index) pairs visited by the reference; transitions = draws; a configuration is non-trivial '
                 'when its traces have more than one distinct outcome.')
     ctx.assumptions = ['uniform -> (waiting time, reaction) mapping of the direct method: tau = -ln(u)/Lambda, '
